@@ -35,7 +35,9 @@ FORMS = ["gopher", "gophers", "gplus", "gpluss", "gdollar", "gbang", "http", "ht
 MUTATIONS = ["none", "none", "none", "nul", "msg0", "msgneg", "msghuge", "msgx", "msgon", "slash", "dslash",
              "dotdot", "missing", "pctnul", "qmark", "bar", "dotseg", "dotseg", "tslash2", "tslash2",
              # argument parts (what follows '?' or '|' goes to a script as its arguments) in shell-like syntax
-             "qquote", "barquote", "qbslash", "qshell"]
+             "qquote", "barquote", "qbslash", "qshell",
+             # type prefixes as old URL-style clients send them ('/0/file'; a rewriting handler of the full list strips them)
+             "typeprefix", "typeprefix2", "typeprefixdeep"]
 # long regular strings after the prefixes the handlers test with regular expressions (a pattern that backtracks on them
 # never finishes)
 _REDOS = [pre + unit * n + post for pre in ("URL:", "/URL:", "/", "GET /URL:", "gemini://h/URL:", "h /URL:")
@@ -278,6 +280,8 @@ def _mutate(sel, mut):
         return sel + "?C:\\"
     if mut == "qshell":
         return sel + "?$(x) `y` ;z 'a b'"
+    if mut.startswith("typeprefix"):
+        return "/0" * {"typeprefix": 1, "typeprefix2": 2, "typeprefixdeep": 600}[mut] + (sel if sel != "/" else "/x")
     return sel
 
 
